@@ -9,7 +9,10 @@ _OBS = []
 
 def K(id, file, props, contract, functions, strength="proved", tier="quick", timeout=300, features=("default",),
       zflags=(), bound=None, **kw):
-    o = dict(id=id, engine="kani", harness="%s::verif_kani::%s" % (file, id), props=list(props), contract=contract,
+    hname = id
+    if kw.get("id_suffix"):
+        id = id + "_" + kw.pop("id_suffix")
+    o = dict(id=id, engine="kani", harness="%s::verif_kani::%s" % (file, hname), props=list(props), contract=contract,
              functions=list(functions), strength=strength, tier=tier, timeout=timeout, features=list(features),
              zflags=tuple(zflags), bound=bound)
     o.update(kw)
@@ -232,3 +235,137 @@ PMANT_QUICK = ['pslow_pmant_i3_f0_all', 'pslow_pmant_i0_f5_z2_all', 'pslow_pmant
 for nm in PMANT_CASES:
     K(nm, "slow", PSP, "parse_mantissa(int, frac, max_digits), vector mul_small/add_small replaced by ghost value recorders (contracts c12_small_mul / c12_small_add_from): big integer == first min(significant, max_digits) significant digits (leading fraction zeros skipped when there is no integer part), plus ONE digit '1' iff a later digit of integer or fraction is non-zero (trailing zeros never add it); count == digits in that integer", ["slow::parse_mantissa"], zflags=("stubbing",),
       strength="bounded", bound="digit-count shape %s (i integer digits, f fraction digits, z leading zeros, m/all = max_digits), all digit values symbolic" % nm[12:], features=["default", "compact"], timeout=1200, tier="quick" if nm in PMANT_QUICK else "thorough")
+for nm, t, k, dom in (("pslow_negative_comp_f64_k1", "f64", 1, "D < 2^24, e_b in [-90,-30] (no tie possible)"),
+                      ("pslow_negative_comp_f32_k1", "f32", 1, "D < 2^24, e_b in [-60,-1] (no tie possible)"),
+                      ("pslow_negative_comp_f64_k1_tie", "f64", 1, "D < 2^63, e_b in [-3,0] (exact ties reachable)"),
+                      ("pslow_negative_comp_f64_k3_tie", "f64", 3, "D < 2^63, e_b in [-3,0] (exact ties reachable)"),
+                      ("pslow_negative_comp_f32_k2_tie", "f32", 2, "D < 2^40, e_b in [-6,0] (exact ties reachable)")):
+    K(nm, "slow", PSP, "negative_digit_comp::<%s>(D, fp, -%d) with Bigint::pow replaced by an exact single-limb model: result == b (estimate truncated) if D*10^-%d < b+h, next float if >, even one on a tie" % (t, k, k), ["slow::negative_digit_comp", "slow::bh", "rounding::round", "rounding::round_down"], strength="bounded", bound="%s; one limb, all scaled values < 2^64" % dom, features=["default", "compact"], zflags=("stubbing",), timeout=1500, tier="quick" if nm.endswith("k1_tie") or nm.endswith("k2_tie") else "thorough")
+
+# --------------------------------------------------------------------------- C15 (allocation frame)
+import callgraph as _cg
+for cfg in ("default", "compact", "nostd_compact"):
+    for t in ("f64", "f32"):
+        X("c15_alloc_frame_%s_%s" % (cfg, t), "static", _cg.make_runner(cfg, "c15_entry_" + t, False), ["C15"],
+          "frame: in configuration `%s` no allocator entry point (__rust_alloc*, alloc::*, malloc/calloc/realloc, RawVec) is in the call-graph closure of parse_float::<%s> (Kani GOTO program, function pointers resolved by type)" % (cfg, t),
+          ["parse::parse_float (whole call tree)"], strength="proved", tier="quick" if t == "f64" else "thorough")
+X("c15_alloc_frame_nonvacuity", "static", _cg.make_runner("alloc", "c15_entry_f64", True), ["C15"],
+  "non-vacuity: with the alloc feature the same closure DOES contain allocator entry points (the detector can see them)", ["parse::parse_float (whole call tree)"], strength="proved")
+for t in ("f64", "f32"):
+    K("c15_entry_" + t, "parse", ["C15", "C04"], "entry harness: parse_float::<%s> on 2+2 symbolic digits, every exponent: returns without panic (the same GOTO program is the one analysed for the allocation frame)" % t,
+      ["parse::parse_float"], strength="bounded", bound="2 integer + 2 fraction digits", features=["default", "compact", "nostd_compact"], timeout=1200, tier="thorough")
+PROPERTY_META["C15"] = dict(
+    level="other",
+    claim="Frame condition decided statically for ALL inputs: the call-graph closure of parse_float in Kani's GOTO program (function pointers over-approximated by type) contains no allocator entry in default / compact / no_std+compact; the same analysis finds allocator entries under --features alloc (non-vacuity).",
+    note="Panic paths are cut by Kani (panic = failed check), matching the property's 'valid input' scope together with C04; trusts Kani's codegen and goto-instrument's call graph; a frame condition rather than a pre/postcondition.",
+    explanation="Static frame check (contract family: 'nothing outside the frame is touched'): for each non-alloc configuration the GOTO program of a parse_float entry harness is built from /repo's working tree, goto-instrument --call-graph is run after function-pointer removal, and the transitive closure from the entry is required to contain no allocator symbol. Over-approximate for all inputs, no unwinding bound.",
+    technique="static frame check on the verifier's GOTO program (call-graph closure, goto-instrument)",
+)
+
+# --------------------------------------------------------------------------- C16 (purity)
+K("c16_iter_shapes_parse_number_small", "parse", ["C16"], "parse_number: identical Number for slice iterators, chain, filter(always true), take/skip, a hand-written cloneable iterator, and a copy of the bytes at another address", ["parse::parse_number", "parse::parse_number_fast"], strength="bounded", bound="shapes (0,0),(1,0),(0,2),(3,2)", features=["default", "compact"], timeout=900)
+K("c16_iter_shapes_parse_number_20", "parse", ["C16"], "same, on a 18+3 digit input (second pass, truncation)", ["parse::parse_number"], strength="bounded", bound="shape (18,3)", features=["default", "compact"], timeout=1200, tier="thorough")
+# (c16_frame_parse_float_f64: function contract with empty modifies on parse_float timed out at 20 min in CBMC assigns instrumentation: NOT registered)
+
+# --------------------------------------------------------------------------- C19 (string front-end)
+FRONT = {"simple": "verif_front_simple", "fuzz": "verif_front_fuzz"}
+for key, mod in FRONT.items():
+    src = "examples/simple.rs" if key == "simple" else "fuzz/fuzz_targets/parse.rs"
+    o = K("c19_front_" + key, mod, ["C19"], "%s parse_float (instantiated with the abstract Spy float; the library call replaced by a ghost recorder that checks its preconditions), EVERY byte string of length <= 8: consumed prefix == longest match of [+-]?[0-9]*(\\.[0-9]*)?([eE][+-]?[0-9]*)?; library called once with leading/trailing zeros trimmed and the exponent value; value negated once iff '-'; suffix exactly the rest%s; no panic" % (src, "; nan/inf/infinity literals, empty match => (0.0, bytes)" if key == "fuzz" else ""),
+          [src + "::parse_float", src + "::parse_sign", src + "::consume_digits", src + "::ltrim_zero", src + "::rtrim_zero"], strength="bounded", bound="all byte strings of length <= 8 (every byte value)", features=["default"], zflags=("stubbing",), timeout=1500)
+    K("c19_parse_exponent", mod, ["C19"], "%s parse_exponent on 0, 1, 3 digits: +/- value, never panics" % src, [src + "::parse_exponent"], strength="bounded", bound="exponent digit counts {0,1,3}, all digit values", features=["default"], timeout=900, id_suffix=key)
+    K("c19_parse_exponent_10", mod, ["C19"], "%s parse_exponent on 10 digits (the i32 range ends here): clamp, never panics" % src, [src + "::parse_exponent"], strength="bounded", bound="10 exponent digits, all digit values", features=["default"], timeout=1800, id_suffix=key, tier="thorough")
+    K("c19_parse_exponent_11", mod, ["C19"], "%s parse_exponent on 11 digits: always saturates or clamps, never panics" % src, [src + "::parse_exponent"], strength="bounded", bound="11 exponent digits, all digit values", features=["default"], timeout=1800, id_suffix=key, tier="thorough")
+    K("c19_helpers", mod, ["C19"], "%s parse_sign / consume_digits / ltrim_zero / rtrim_zero on arbitrary bytes" % src, [src + "::parse_sign", src + "::consume_digits", src + "::ltrim_zero", src + "::rtrim_zero"], strength="bounded", bound="length <= 8", features=["default"], id_suffix=key)
+import staticscan as _ss
+X("c16_no_global_state", "static", _ss.run, ["C16"], "frame (syntactic): the crate's sources contain no `static mut`, interior-mutable static, thread-local, lazily initialised or lock-protected global: calls share no state, hence history- and schedule-independent", ["crate-wide"], strength="proved")
+PROPERTY_META["C16"] = dict(
+    level="proof",
+    claim="Frame: the crate owns no mutable global state (source scan) and parse_float under an EMPTY modifies clause writes nothing outside its locals (Kani function contract, bounded input size) - so calls are history- and schedule-independent; iterator independence: parse_number (the only consumer besides parse_mantissa) returns the identical Number for slice/chain/filter/take/skip/hand-written iterators and for a copy of the bytes at another address (bounded digit counts); zero-fill on limb shift/resize is in C12/C13.",
+    note="Universally quantified 'any well-behaved iterator' is not expressible as a Kani contract: five concrete adaptor shapes are checked. Concurrency is decided by the absence of shared state, not by exploring interleavings (Kani has no threads). x87 control word (32-bit x86 + nightly) out of scope on x86-64. Bounded in input length.",
+)
+
+# --------------------------------------------------------------------------- C11 (Bellerophon, compact builds)
+BELL_CFG = ["compact", "compact_alloc", "nostd_compact"]
+BELL = ["bellerophon::bellerophon", "bellerophon::error_is_accurate", "bellerophon::normalize", "bellerophon::mul", "bellerophon::BellerophonPowers::get_small", "bellerophon::BellerophonPowers::get_large", "bellerophon::BellerophonPowers::get_small_int"]
+for t in ("f64", "f32"):
+    K("c11_bell_shape_" + t, "bellerophon", C11L + ["C08", "C05"], "bellerophon::<%s>(num) for ALL Numbers: no panic/overflow/OOB/debug_assert failure; definite => fields in range, finite or +inf, never NaN; mantissa 0 or exponent <= -4096 => +0.0; exponent >= 4096 => +inf; declined => normalised, exponent un-biases into [-64, 2200]" % t, BELL, features=BELL_CFG, timeout=900)
+    K("c11_bell_band_" + t, "bellerophon", C11L + ["C06", "C05"], "error_is_accurate::<%s> band soundness: for all normalised (mant, exp), errors <= 64: accepted => every significand in (mant-errors, mant+errors) rounds (round + nearest-even callback as used) to the same packed float as mant" % t, ["bellerophon::error_is_accurate", "rounding::round", "rounding::round_nearest_tie_even"], features=BELL_CFG, timeout=900)
+K("c11_bell_normalize", "bellerophon", C11L, "normalize: mant<<lz, exp-lz, returns lz; zero untouched", ["bellerophon::normalize"], features=BELL_CFG)
+for sfx in ("small", "large_a", "large_b", "large_c", "large_d", "large_e", "large_f"):
+    K("c11_bell_mul_" + sfx, "bellerophon", C11L, "mul(x,y).mant == floor((x*y + 2^63)/2^64), exp == x.exp+y.exp+64 for every normalised x and y = each table power in the group (as constants)", ["bellerophon::mul"], strength="proved", bound="y ranges over the table entries of the group (all 76 entries over the 7 groups); x arbitrary", features=BELL_CFG[:1], timeout=3600, tier="thorough")
+K("c11_bell_powers", "bellerophon", C11L + ["C14", "C08"], "get_small(i<10) / get_large(j<66): index in range, exponent == floor(log2 10^e) - 63, significand normalised; small_int[i] == 10^i; step 10, bias 350", BELL[4:], features=BELL_CFG)
+
+# =========================================================================== per-property claims
+A_LEMIRE = "A-LEMIRE: for decimal exponents q outside [0,27] the 128-bit truncated product suffices whenever Eisel-Lemire does not decline (Mushtak & Lemire 2023), and a declined estimate truncates to a float b with b <= value < b + 1.5 ulp - number theory beyond the SAT back end; ASSUMED"
+A_CLINGER = "A-CLINGER: Bellerophon's accumulated `errors` (table truncation <= 1 ulp, product rounding <= 1/2 ulp, in 1/8-ulp units) bound the true error - ASSUMED (band soundness given that bound is proved)"
+A_IEEE = "A-IEEE: the hardware's f32/f64 `*` and `/` on exactly representable operands return the correctly rounded result (CBMC's float circuits versus an integer oracle timed out) - ASSUMED; which single operation is applied to which exact operands is proved"
+A_TIE = "L-TIE: w*10^q with q in [24,27] (f32: [11,27]) is never an exact rounding tie (5^q | 2m+1 < 2^54 forces q <= 23; 2^25 -> q <= 10) - pen-and-paper lemma, ASSUMED"
+A_CAP = "L-CAP: with <= 770 digits, decimal exponents inside the moderate stage's table range and an estimate within 2 ulp, every big integer formed is below 2^3968 (62 limbs) - pen-and-paper bound in DESIGN.md, ASSUMED (the operations' None-iff-too-large behaviour at the capacity edge is checked)"
+A_BOUND = "bounded obligations (digit-count shapes, limb counts) are stand-ins, not proofs: listed per obligation in coverage.samples[].bound"
+
+CHAIN_NOTE = ("Conditional: the contract chain parse_number -> try_fast_path | moderate stage -> slow path -> round/pack is checked link by link "
+              "(dispatch with callees replaced by their contracts); links that are ASSUMED, not proved: " + "; ".join([A_LEMIRE.split(':')[0], A_CLINGER.split(':')[0], A_IEEE.split(':')[0], A_TIE.split(':')[0], A_CAP.split(':')[0]]) +
+              ". Loop-carrying functions are checked on stated digit-count / limb-count bounds (bounded stand-ins).")
+
+PROPERTY_META["C01"] = dict(
+    level="proof",
+    claim="Every link of the f64 chain carries a contract discharged by Kani on the real code: digit accumulation == spec (bounded shapes, all i32 exponents), fast path == one IEEE op on exact operands (all Numbers, abstract Float), Eisel-Lemire shape for all (q,w), tail == RNE of its product for all q, EXACT correct rounding for all w and q in [0,27] incl. ties, w/w+1 dispatch, slow-path glue, parse_mantissa, positive/negative digit comparison (bounded), round/pack proved for all inputs, tables proved by Verus. Correct rounding for ALL inputs follows only together with the listed assumed links.",
+    note=CHAIN_NOTE, assumptions=[A_LEMIRE, A_IEEE, A_TIE, A_CAP, A_BOUND], trusted_base=["assumed contracts: A-LEMIRE, A-IEEE, L-TIE, L-CAP (see assumptions)"])
+PROPERTY_META["C02"] = dict(
+    level="proof",
+    claim="Same chain as C01 instantiated for f32 (every generic function is verified for both instantiations; f32 constants pinned against literals; f32 fast path uses f32 operations and the f32 power table - one rounding).",
+    note=CHAIN_NOTE, assumptions=[A_LEMIRE, A_IEEE, A_TIE, A_CAP, A_BOUND], trusted_base=["assumed contracts: A-LEMIRE, A-IEEE, L-TIE, L-CAP"])
+PROPERTY_META["C04"] = dict(
+    level="proof",
+    claim="Kani checks every unwrap, debug_assert!, arithmetic/shift overflow and index on the paths of every obligation (debug-assertion semantics). Complete (all inputs) for the loop-free layers: number.rs, lemire.rs, bellerophon.rs, rounding.rs, mask.rs, num.rs, extended_float.rs, into_i32, scalar big-integer helpers, scientific_exponent; bounded for parse_number, parse_mantissa, vector operations; capacity unwraps rest on L-CAP.",
+    note="Release vs debug: absence of overflow / failed debug_assert in the debug-assertion build implies the release build computes the same values. Capacity never exhausted: None-iff-too-large at the edge is checked, the size bound L-CAP is assumed. Inputs of 10^6 digits are beyond every bound: covered only by the uniform loop structure.",
+    assumptions=[A_CAP, A_BOUND, "declined estimates have biased exponent >= -64 (round's shift <= 65 debug_assert) - follows from A-LEMIRE, not proved"])
+PROPERTY_META["C05"] = dict(
+    level="proof",
+    claim="No verifier run can see two cfg-exclusive versions at once: C05 is decided as 'every configuration-sensitive function satisfies the SAME configuration-independent contract in each configuration': table look-ups and on-demand powers both equal the exact powers, bigint::pow with and without the 5^135 step has the same factor contract, StackVec/HeapVec carry the same big-integer contracts, Lemire and Bellerophon satisfy the same 'definite => in range / band-sound, declined => normalised estimate' contracts; the thorough tier runs each tagged obligation under default, compact, alloc, compact+alloc, no_std+compact.",
+    note="Quick tier runs each obligation in its first configuration only; bit-identity across configurations follows from the common contracts plus the assumed links of C01 (A-LEMIRE / A-CLINGER decide the same value). std powf (std+compact) assumed exact.",
+    assumptions=[A_LEMIRE, A_CLINGER, "A-STD: std powf(10,i) exact for i <= 10/22 (std+compact)", A_BOUND])
+PROPERTY_META["C06"] = dict(
+    level="proof",
+    claim="Each of the three truncation mechanisms has its own contract: (1) parse_number: 19 significant digits, many_digits flag, exponent correction (shapes up to 23 digits); (2) lemire: definite for a truncated significand only if w and w+1 agree (all inputs) / Bellerophon band soundness (all inputs); (3) parse_mantissa: cut at max_digits, exactly one sticky digit iff a later digit is non-zero, trailing zeros never add it, count (shapes up to 24 digits, small max_digits); sticky flag of hi64 covers all lower limbs; sticky rounding proved for all inputs (C18).",
+    note="Bounded in digit count (<= 24): inputs with 10^6 digits are covered only by the uniformity of the loops beyond the cut-off. That 769/114 retained digits suffice (longest halfway expansion has 768/113 significant digits) is arithmetic checked at design time, not by the verifier.",
+    assumptions=[A_LEMIRE, A_CLINGER, A_BOUND, "MAX_DIGITS sufficiency (768 / 113 digit halfway expansions)"])
+PROPERTY_META["C07"] = dict(
+    level="proof",
+    claim="round/pack proved for every subnormal shift, promotion, carry, infinity (C18); Eisel-Lemire / Bellerophon early-outs: zero significand => +0.0 and hopeless exponents => +0.0/+inf for ALL inputs, subnormal and overflow branches consistent with the product (tail contract, all q); exponent saturation in parse_number for ALL i32 exponents (no wrap); negative_digit_comp around b (bounded).",
+    note="Exactness of the Lemire subnormal branch beyond consistency with its product rests on A-LEMIRE; thresholds 10^-343 < 2^-1075*2^-64 and 10^309 > 2^1024 are arithmetic facts stated in DESIGN.md.",
+    assumptions=[A_LEMIRE, A_CLINGER, A_BOUND])
+PROPERTY_META["C08"] = dict(
+    level="proof",
+    claim="Every unsafe site is behind an obligation whose pointer/bounds checks Kani discharges: power-table indexing (fast path: index <= 22/10 for ALL Numbers; int_pow_fast_path callers), StackVec primitives on every well-formed vector up to capacity 62 (push/pop/extend/resize/set_len), shl_limbs ptr::copy/write_bytes incl. the capacity edge, normalize; Lemire/Bellerophon table indexing for ALL (q,w) / Numbers; the string front-end on ALL byte strings <= 8.",
+    note="Only memory-safety check classes count for this property; arbitrary (non-digit) bytes: the digit loops read bytes only through the caller's iterators (safe code); parse-level harnesses use digit bytes. Uninitialised-read detection relies on wf pre-states; -Z uninit-checks not enabled (cost).",
+    assumptions=[A_BOUND])
+PROPERTY_META["C09"] = dict(
+    level="proof",
+    claim="Round-to-nearest is monotone, so C09 is a corollary of C01/C02 (same obligations, same assumed links). No separate cross-path obligation exists: monotonicity across the fast/moderate/slow seams needs the numeric oracle that the SAT back end cannot provide.",
+    note=CHAIN_NOTE, assumptions=[A_LEMIRE, A_CLINGER, A_IEEE, A_TIE, A_BOUND])
+PROPERTY_META["C10"] = dict(
+    level="proof",
+    claim="Re-splitting digits between integer part, fraction part and exponent changes neither the Number nor the big-integer digits: parse_number == spec_parse_number and parse_mantissa == spec for every split of the same digit string (the spec depends only on the concatenated digits and e - fraction length), for all exponents; everything downstream is a function of those results (dispatch contract). Appending fraction zeros changes (w,q) to (w*10^k, q-k): equality then follows from correctness (C01) - conditional.",
+    note="Bounded digit-count shapes; zero-appending is conditional on C01's assumed links.", assumptions=[A_LEMIRE, A_BOUND])
+PROPERTY_META["C11"] = dict(
+    level="proof",
+    claim="Eisel-Lemire (all (q,w), f32+f64): shape, early-outs, product contract (uninterpreted multiplication), tail == RNE of a value within one unit of the product's top 64 bits for ALL q, EXACT correct rounding incl. ties for q in [0,27], declined estimates carry the product's top bits and exponent, truncated significand accepted only if w and w+1 agree. Bellerophon (all Numbers): shape, band soundness of error_is_accurate for all (mant, exp, errors<=64), normalize, mul against every table constant, power exponents. Tables and the log2 formula by Verus.",
+    note="'Definite => correctly rounded' for q outside [0,27] (Lemire) and the error accounting (Bellerophon) are the assumed theorems A-LEMIRE / A-CLINGER: a change wrong ONLY there (e.g. MIN_EXPONENT_ROUND_TO_EVEN -4 -> -3) is not detected.",
+    assumptions=[A_LEMIRE, A_CLINGER, A_TIE])
+PROPERTY_META["C12"] = dict(
+    level="proof",
+    claim="Scalar layer proved for all inputs (scalar_add, scalar_mul == x*y+c exactly, 64/128-bit top-bits helpers). Vector operations checked against fixed-width reference naturals for operands of 1..4 limbs with scalar_mul replaced by its contract over an uninterpreted commutative product: small_add_from, small_mul, large_add_from, long_mul, large_mul, shl_bits, shl_limbs (incl. capacity edge), shl, hi64 + sticky over all lower limbs, bit_length; pow: every factor is an exact power of five and exponents sum to exp for every exp <= 1200; Bigint::pow dispatch; overflow of the 62-limb capacity reported as None.",
+    note="BOUNDED in operand length (CBMC cannot close these loops at 62 limbs within budget; Verus cannot ingest them verbatim); compare/normalize in C13. Both storage back ends in the thorough tier (HeapVec via Kani's Vec model).",
+    assumptions=[A_BOUND])
+PROPERTY_META["C13"] = dict(
+    level="proof",
+    claim="Histories handled inductively: representation invariant wf (length <= 62, data[..length] initialised) and abstract view data[..length]; for EVERY wf pre-state (symbolic length up to 62, symbolic limbs) each safe operation (new, len, is_empty, capacity, deref, deref_mut, try_push, pop, try_extend, try_from, try_resize, normalize, is_normalized, from_u64, eq, cmp, partial_cmp) yields a wf post-state whose WHOLE view equals the reference operation's (frame included); failing try_* return None with the view unchanged.",
+    note="try_extend / try_from / try_resize / normalize / cmp are bounded in the amount changed per call (<= 4 limbs, <= 8 limbs for cmp) at every pre-length; HeapVec delegates to Vec (Kani's model) and is exercised through the C12 obligations in alloc configurations.",
+    assumptions=[A_BOUND])
+PROPERTY_META["C19"] = dict(
+    level="proof",
+    claim="examples/simple.rs and fuzz/fuzz_targets/parse.rs are compiled verbatim as cfg(kani) modules; for EVERY byte string of length <= 8 (all 256 byte values): consumed prefix == longest match of the grammar, library called exactly once with trimmed digit runs satisfying its documented preconditions and the exponent value, sign applied once, suffix exactly the rest, nan/inf/infinity and empty match in the fuzz copy, no panic; parse_exponent saturates (10/11 digits in the thorough tier). Correct rounding of the delegated value is C01/C02.",
+    note="Bounded in length (8 bytes); tests/integration_tests.rs and etc/correctness copies are textual copies of the fuzz front-end and are not separately compiled. The library call is replaced by a ghost recorder (stub).",
+    assumptions=[A_BOUND, "C01/C02 for the value returned by the library"])
